@@ -12,9 +12,14 @@ SPEC = dict(
          "quaternions) closed by Rod and/or PointInPlane constraints, optional ConstantSpeed constraint, prescribed Motion::Sinusoid at "
          "Position or Velocity level (guaranteed share), all 10 integrators, random accuracy 1e-2..1e-5, constraint tolerance, "
          "RMS/infinity norm, project-every-step, interpolation on/off, projection of interpolated states on/off, return-every-step, "
-         "final time, scheduled times, fixed step size (own key class), time witnesses; "
+         "final time, scheduled times, fixed step size (own key class), time witnesses, force-full-Newton; GUARANTEED 1/3 of the sessions: "
+         "setProjectInterpolatedStates(false) + 2-4 witness events + loose accuracy (1e-2..6e-4) + tight constraint tolerance (1e-6..3e-9) "
+         "+ random project-every-step / infinity norm / full Newton; the advanced state at tHigh is recorded at every ReachedEventTrigger "
+         "return (kind event_after); rule: step, event-before and event-after states must ALWAYS be on the manifold, only interpolated "
+         "REPORT states are exempt when projection of interpolated states is off; "
          "mode 'oracle': one record per stepTo call of RungeKuttaMerson/Feldberg/3/2 (the integrators using the default attemptDAEStep) "
-         "on a harness-defined constrained System whose projectQImpl/projectUImpl log every call and fail on demand; "
+         "on a harness-defined constrained System whose projectQImpl/projectUImpl log every call and fail on demand (half of the sessions with "
+         "projection of interpolated states off and 2-3 witness events); predicted: provenance of the handed-out AND of the advanced state; "
          "distinct = distinct records",
     partial="(i) proved about the EXECUTED decision structure (attemptDAECore/stepLoop/handOut/callProv/sessionProv, replayed against the "
             "implementation in mode 'oracle' for the 4 integrators with the default attemptDAEStep): every state handed out by an "
